@@ -109,6 +109,26 @@ def check_trace(res, runner, tr, cfg, stats):
                              'expire() left %d of %d passed items (expire_times %s)' % (len(left), len(passed), sorted(set(x[4] for x in left))[:3]), i))
             if r != len(gone):
                 viol.append(('expire_count', 'expire() returned %r but removed %d' % (r, len(gone)), i))
+        if op in ('set', 'add', 'incr') and 'k' in a:
+            # what a successful write stored stays until ITS expiry time passes (no ttl: forever)
+            wrote, wexp = False, None
+            if op == 'set' and r is True:
+                wrote, wexp = True, (None if a.get('expire') is None else now + a['expire'])
+            elif op == 'add' and r is True:
+                wrote, wexp = True, (None if a.get('expire') is None else now + a['expire'])
+            elif op == 'incr' and not isinstance(r, tuple):
+                rowp = find_row(disk, prev_rows, key)
+                if rowp is not None and live(rowp, now):
+                    wrote, wexp = True, rowp[4]
+                else:
+                    wrote, wexp = True, None        # restarted from the default: no expiry
+            if wrote:
+                rown = find_row(disk, rows, key)
+                if rown is None:
+                    if wexp is None or wexp >= now:
+                        viol.append(('written_item_vanished:%s' % op, '%s succeeded but the item is gone although its expiry time (%r) has not passed' % (op, wexp), i))
+                elif rown[4] != wexp:
+                    viol.append(('wrong_expiry_written:%s' % op, '%s left expire_time %r, expected %r' % (op, rown[4], wexp), i))
         if op in ('set', 'add', 'incr', 'push'):
             # lazy removal by a write: only passed items, at most cull_limit (size limit is out of reach here)
             target = None
